@@ -685,6 +685,8 @@ func c22Diff(got, want, origins []string) (key, detail string) {
 		name = "module-not-evaluated"
 	case wk == "exc-nosuch" && (gk == "obs" || gk == "eval"):
 		name = "missing-module-resolved"
+	case strings.HasPrefix(gk, "exc-") && !strings.HasPrefix(wk, "exc-"):
+		name = "unexpected-exception-" + gk[4:]
 	}
 	return origin + ":" + name, fmt.Sprintf("log differs at event %d (import step %d, from %s): got %q, want %q", k, step+1, origin, g, w)
 }
